@@ -78,6 +78,8 @@ func RunH(spec *HSpec, env *Env) *Result {
 	if depth == 0 {
 		depth = 2
 	}
+	coreCache := map[string]string{}
+	coreSeen := map[string]int{}
 	scs := spec.Scenarios(env.Tier)
 	if f := os.Getenv("VERIF_FILTER"); f != "" {
 		// development aid: restrict to scenarios whose name contains the filter
@@ -130,13 +132,33 @@ func RunH(spec *HSpec, env *Env) *Result {
 					res.HarnessErr = append(res.HarnessErr, v.Detail)
 					continue
 				}
-				if mine || env.Shard == 0 {
-					cfg := sc.Cfg
-					res.AddFound(Found{Property: spec.ID, Kind: v.Kind, Sig: v.Sig, Detail: v.Detail,
-						Scenario: sc, Cfg: &cfg, Hist: h, Core: v.Core})
+				if !(mine || env.Shard == 0) {
+					continue
 				}
+				cfg := sc.Cfg
+				f := Found{Property: spec.ID, Kind: v.Kind, Sig: v.Sig, Detail: v.Detail, Scenario: sc, Cfg: &cfg, Hist: h, Core: v.Core}
+				if f.Core == "" {
+					// Minimise here, in the worker, once per (oracle kind, signature, set of
+					// event kinds): extensions of a violating history are still explored
+					// (a known finding on a prefix must not hide a new violation further
+					// down), so the same root cause shows up many times.
+					ck := v.Kind + "|" + v.Sig + "|" + strings.Join(sc.Init, "+") + "|" + opSet(h)
+					if c, ok := coreCache[ck]; ok {
+						f.Core = c
+						if n := coreSeen[c]; n >= maxFoundPerSig {
+							continue
+						}
+					} else if len(coreCache) < 400 {
+						m := MinimiseH(spec)(&f)
+						m.Core = CoreKey(m)
+						coreCache[ck] = m.Core
+						f = *m
+					}
+				}
+				coreSeen[f.Core]++
+				res.AddFound(f)
 			}
-			return len(viol) == 0
+			return true
 		})
 		res.Count("por_cut", st.PORCut)
 		if incomplete {
